@@ -793,6 +793,8 @@ func (c *DefaultPrimaryConnector) Connect(r *Replica) error {
 	opts := []grpc.DialOption{
 		grpc.WithBlock(),
 		grpc.WithTimeout(r.config.Connection.DialTimeout),
+		// Accept what the primary may send (its server is configured with the same limit)
+		grpc.WithDefaultCallOptions(grpc.MaxCallRecvMsgSize(16*1024*1024)),
 		grpc.WithKeepaliveParams(keepalive.ClientParameters{
 			Time:                30 * time.Second, // Send pings every 30 seconds if there is no activity
 			Timeout:             10 * time.Second, // Wait 10 seconds for ping ack before assuming connection is dead
